@@ -67,9 +67,11 @@ func (r Registry) LookupInterface(name string) (*types.Interface, *types.TypePar
 	}
 
 	var tparams *types.TypeParamList
-	named, ok := obj.Type().(*types.Named)
-	if ok {
-		tparams = named.TypeParams()
+	switch t := obj.Type().(type) {
+	case *types.Named:
+		tparams = t.TypeParams()
+	case *types.Alias: // generic alias: type A[T any] = B[T]
+		tparams = t.TypeParams()
 	}
 
 	return obj.Type().Underlying().(*types.Interface).Complete(), tparams, nil
